@@ -1,6 +1,9 @@
 from __future__ import annotations
 
 import functools
+import operator
+from functools import partial, reduce
+from itertools import product, starmap
 from abc import ABC, abstractmethod
 from dataclasses import dataclass, field, replace, asdict, astuple
 from enum import Enum, IntEnum, Flag, auto, unique
@@ -441,3 +444,12 @@ def t_private_names_and_state():
         out.append('n full')
     out.append(Machine.LIMIT)
     return out
+
+
+def t_operator_on_objects():
+    keep = list(filter(partial(operator.is_not, Seat.N), Seat))
+    pts = list(starmap(FPt, product(range(2), filter(partial(operator.ne, 1), range(3)))))
+    return [[s.name for s in keep], len(pts), operator.is_(Seat.N, Seat(1)), operator.eq(FPt(1), FPt(1, 0)), operator.contains([Seat.N], Seat(1)), operator.lt(Strain.C, Strain.NT),
+            operator.add(Strain.C, 1), operator.getitem({'a': Seat.E}, 'a').name, operator.not_(Dbl.NONE), operator.truth(Dbl.X), reduce(operator.or_, [Dbl.X, Dbl.XX]).value,
+            operator.countOf([Seat.N, Seat.E, Seat(1)], Seat.N), operator.indexOf([Seat.E, Seat.N], Seat.N), sorted([FPt(2), FPt(1)], key=operator.attrgetter('x'))[0].x,
+            operator.methodcaller('norm1')(Pt(-2, 3)), operator.itemgetter(1)([Seat.N, Seat.S]).name, operator.attrgetter('nxt.name')(Seat.N), operator.neg(Strain.D)]
